@@ -18,7 +18,44 @@ class Multi:
     pass
 
 
-def declare_multi(spec):
+def add_stage(m, sd):
+    """declare one more stage on the master (directly or from a template), through public calls only"""
+    import rockit
+    ocp = m.ocp; templates = m.templates
+    if True:
+            d = sd["d"]
+            via = sd.get("via", "direct")
+            t0, T = horizon_args(d)
+            if via == "direct":
+                st = ocp.stage(t0=t0, T=T)
+                r = P.declare(d, ocp=ocp, stage=st, solver=False)
+            else:
+                key = sd.get("tmpl", 0)
+                if key not in templates:
+                    tm = rockit.Stage()
+                    # the template carries the default horizon of its own declaration; clones override t0/T
+                    rt = P.declare(sd["tmpl_d"], ocp=ocp, stage=tm, solver=False)
+                    templates[key] = rt
+                    rt.decl0 = template_state(rt)
+                rt = templates[key]
+                st = ocp.stage(rt.st, t0=t0, T=T)
+                r = P.Real()
+                r.d = d; r.ocp = ocp; r.st = st
+                r.sym = dict(rt.sym)
+                for k in ("t", "T", "t0", "tf", "DT", "DT_control"):
+                    r.sym[k] = getattr(st, k)
+                r.pt = P.RealPt(st, r.sym)
+                # edits applied to this clone only
+                # a parameter value given to this clone only, after cloning
+                if d["pg"] == "scalar" and "pg" in d.get("pvals", {}):
+                    st.set_value(r.sym["pg"], d["pvals"]["pg"])
+                for c in sd.get("extra_cons", []):
+                    rel = P.CONS[c["c"]](P.CA, r.pt, d)
+                    st.subject_to(P.apply_rel(rel))
+            m.reals.append(r)
+
+
+def declare_multi(spec, upto=None, couple=True):
     """spec: dict(stages=[{d:..., via: 'direct'|'clone'|'clone_edit_after', tmpl: idx}], coupling=[...])"""
     import rockit, casadi as ca
     m = Multi()
@@ -28,39 +65,20 @@ def declare_multi(spec):
     templates = {}
     m.templates = templates
     for i, sd in enumerate(spec["stages"]):
-        d = sd["d"]
-        via = sd.get("via", "direct")
-        t0, T = horizon_args(d)
-        if via == "direct":
-            st = ocp.stage(t0=t0, T=T)
-            r = P.declare(d, ocp=ocp, stage=st, solver=False)
-        else:
-            key = sd.get("tmpl", 0)
-            if key not in templates:
-                tm = rockit.Stage()
-                # the template carries the default horizon of its own declaration; clones override t0/T
-                rt = P.declare(sd["tmpl_d"], ocp=ocp, stage=tm, solver=False)
-                templates[key] = rt
-                rt.decl0 = template_state(rt)
-            rt = templates[key]
-            st = ocp.stage(rt.st, t0=t0, T=T)
-            r = P.Real()
-            r.d = d; r.ocp = ocp; r.st = st
-            r.sym = dict(rt.sym)
-            for k in ("t", "T", "t0", "tf", "DT", "DT_control"):
-                r.sym[k] = getattr(st, k)
-            r.pt = P.RealPt(st, r.sym)
-            # edits applied to this clone only
-            # a parameter value given to this clone only, after cloning
-            if d["pg"] == "scalar" and "pg" in d.get("pvals", {}):
-                st.set_value(r.sym["pg"], d["pvals"]["pg"])
-            for c in sd.get("extra_cons", []):
-                rel = P.CONS[c["c"]](P.CA, r.pt, d)
-                st.subject_to(P.apply_rel(rel))
-        m.reals.append(r)
-    # master-level coupling
+        if upto is not None and i >= upto:
+            break
+        add_stage(m, sd)
     m.w = None
-    for cp in spec.get("coupling", []):
+    if couple:
+        add_coupling(m, spec.get("coupling", []))
+    ocp.solver("ipopt", {"ipopt.print_level": 0, "print_time": False, "ipopt.sb": "yes"})
+    return m
+
+
+def add_coupling(m, coupling):
+    """master-level coupling constraints / variables / objective terms"""
+    ocp = m.ocp
+    for cp in coupling:
         k = cp[0]
         if k == "continuity":
             i = cp[1]
@@ -86,8 +104,6 @@ def declare_multi(spec):
         elif k == "master_obj":
             r = m.reals[cp[1]]
             ocp.add_objective(0.7 * r.st.at_tf(r.sym["x"][0]))
-    ocp.solver("ipopt", {"ipopt.print_level": 0, "print_time": False, "ipopt.sb": "yes"})
-    return m
 
 
 def template_state(rt):
